@@ -296,6 +296,7 @@ def compare_outputs(scripts, impl_out, lean_out, impl_name, normalize=None, orac
                     if not exp(model):
                         res.append(Mismatch("model-vs-spec", sc, i, impl, model, "<oracle predicate>", impl_name))
                         break
+                    continue   # a predicate oracle replaces the equality comparison for this op
                 elif exp is not None:
                     spec = exp
             if impl == "unsupported":
